@@ -401,6 +401,16 @@ class FnView:
             if inner is not None and inner.get('kind') in ('CXXConstructExpr',) and tkey(tu.sd(inner).get('ct') or '') == key:
                 return t
             return ('ctor', key, (t,))
+        if k == 'UnaryExprOrTypeTraitExpr':
+            cv = tu.sd(n).get('cv')
+            if cv is not None:
+                try:
+                    return ('lit', Fraction(str(cv)))
+                except ValueError:
+                    pass
+            if ks:
+                return ('traitof', n.get('name', '?'), T(ks[0]))
+            return ('traitof', n.get('name', '?'), ('type', tkey((n.get('argType') or {}).get('qualType'))))
         if k == 'CXXDefaultArgExpr':
             return ('defarg',)
         if k == 'CXXDefaultInitExpr':
